@@ -43,21 +43,39 @@ lines = ["# Which check catches which independently seeded change", "",
          "written against; rc 1 = VIOLATION reported, 0 = silent, 2 = ANALYSIS-ERROR.", "",
          "| seed | own check | first rule that fires | other checks that also fire |", "|---|---|---|---|"]
 miss = 0
+retired = {}
+for seed, res in rows:
+    try:
+        meta = json.load(open("/verif/seeded/%s/meta.json" % seed))
+    except Exception:
+        meta = {}
+    if meta.get("neutralised_by_fix"):
+        retired[seed] = "neutralised by repair %s (its own demonstration passes on HEAD + patch): silence is correct" % meta["neutralised_by_fix"]
+    if meta.get("superseded_by_fix"):
+        retired[seed] = "superseded by repair %s (the patch no longer applies to HEAD)" % meta["superseded_by_fix"]
 for seed, res in rows:
     own = seed.split("-")[0]
+    if seed in retired:
+        lines.append("| %s | - | - | %s |" % (seed, retired[seed]))
+        continue
+    if not res:
+        lines.append("| %s | PATCH DOES NOT APPLY | - | - |" % seed)
+        miss += 1
+        continue
     o = res.get(own, (None, "-"))
     others = [i for i, (rc, _) in res.items() if rc == 1 and i != own]
     errs = [i for i, (rc, _) in res.items() if rc == 2]
     if o[0] != 1:
         miss += 1
     lines.append("| %s | %s rc=%s | %s | %s%s |" % (seed, own, o[0], o[1], ", ".join(others) or "-", (" (analysis-error: %s)" % ",".join(errs)) if errs else ""))
-lines += ["", "%d seeded changes, %d caught by the check of their own property, %d caught by some check." %
-          (len(rows), len(rows) - miss, sum(1 for _, r in rows if any(rc == 1 for rc, _ in r.values())))]
+live = [r for r in rows if r[0] not in retired]
+lines += ["", "%d seeded changes (%d retired, see above); of the %d live ones %d are caught by the check of their own property, %d by some check." %
+          (len(rows), len(retired), len(live), len(live) - miss, sum(1 for _, r in live if any(rc == 1 for rc, _ in r.values())))]
 open("/verif/seeded/MATRIX.md", "w").write("\n".join(lines) + "\n")
 print("\n".join(lines[-1:]))
 for seed, res in rows:
     own = seed.split("-")[0]
-    if res.get(own, (None,))[0] != 1:
+    if seed not in retired and res.get(own, (None,))[0] != 1:
         print("NOT CAUGHT BY OWN:", seed, res)
 PY
 rm -rf "$OUT"
